@@ -427,3 +427,70 @@ func sortedKeys(m map[string]string) []string {
 	sort.Strings(out)
 	return out
 }
+
+// noSharedStateRule: the functions reachable from roots (closed world) neither store to a package-level variable
+// nor write through memory reachable from one - a necessary condition for "the result is a function of the
+// arguments" whenever two calls may overlap in time or follow each other (the C18 rule restricted to one
+// property's code, so that the property's own check reports a hidden scratch buffer, cache or pool).
+func (c *Ctx) noSharedStateRule(r *Report, rule, what string, floor int, roots ...*ssa.Function) {
+	r.Rule(rule, "no function reachable from "+what+" stores to a package-level variable or writes through memory reachable from one (outside package initialisers): the result depends on the arguments only, whatever ran before or runs at the same time", floor)
+	var rs []*ssa.Function
+	for _, fn := range roots {
+		if fn != nil {
+			rs = append(rs, fn)
+		}
+	}
+	if len(rs) == 0 {
+		r.undecided(rule, "roots", "-", "no root of the rule resolves")
+		return
+	}
+	var scope []*ssa.Function
+	for _, fn := range c.Reachable(rs...) {
+		if fn.Blocks != nil && c.InModule(fn) && !isInitFunc(fn) {
+			scope = append(scope, fn)
+		}
+	}
+	isModGlobal := map[*ssa.Global]bool{}
+	for _, g := range c.moduleGlobals() {
+		isModGlobal[g] = true
+	}
+	ar := c.Alias(&AliasCfg{
+		Scope: scope,
+		Source: func(fn *ssa.Function, v ssa.Value) bool {
+			g, ok := v.(*ssa.Global)
+			return ok && isModGlobal[g]
+		},
+	})
+	wt := map[*ssa.Function][]AliasSite{}
+	for _, w := range ar.WritesThrough {
+		wt[w.Fn] = append(wt[w.Fn], w)
+	}
+	ext := map[*ssa.Function][]AliasSite{}
+	for _, w := range ar.ExtArgs {
+		ext[w.Fn] = append(ext[w.Fn], w)
+	}
+	for _, fn := range scope {
+		var bad []string
+		for _, k := range c.DirectEffects(fn).sorted() {
+			if strings.HasPrefix(k, "global:") {
+				bad = append(bad, "direct store to "+k)
+			}
+		}
+		for _, w := range wt[fn] {
+			bad = append(bad, w.What+" at "+c.InstrPos(w.Ins)+" ["+c.SrcExpr(w.Ins)+"]")
+		}
+		und := ""
+		for _, w := range ext[fn] {
+			und += w.What + " at " + c.InstrPos(w.Ins) + "; "
+		}
+		key := c.FuncName(fn)
+		switch {
+		case len(bad) > 0:
+			r.bad(rule, key, c.Pos(fn.Pos()), "writes package-level state: "+strings.Join(bad, "; "))
+		case und != "":
+			r.undecided(rule, key, c.Pos(fn.Pos()), und)
+		default:
+			r.ok(rule, key, c.Pos(fn.Pos()), "no store / map update / external writer reaches package state", true)
+		}
+	}
+}
